@@ -113,7 +113,7 @@ _ARGS = "o0: int, p0: int, c0: int, o1: int, p1: int, c1: int, o2: int, p2: int,
 _PRE = ["0 <= o0 <= 2", "0 <= p0 <= 1", "0 <= c0 <= 7", "0 <= o1 <= 4", "0 <= p1 <= 1", "0 <= c1 <= 7", "0 <= o2 <= 4", "0 <= p2 <= 1", "0 <= c2 <= 7", "1 <= w <= 2"]
 
 
-@harness("C04", also=("C06",), args=_ARGS, pre=_PRE,
+@harness("C04", args=_ARGS, pre=_PRE,
          tiers={"quick": {"timeout": 170, "pre": ["o0 == 1", "c2 == 0", "w == 2", "arr == False"],
                           "parts": [(f"p{p}_c{c}", f"p0 == {p} and c0 == {c}") for p in (0, 1) for c in range(8) if not (p == 1 and c >= NB)]},
                 "thorough": {"timeout": 1500, "pre": ["c2 <= 1", "arr == False or (c0 <= 3 and c1 <= 3 and c2 <= 1)"], "parts": [(f"p{p}_c{c}_o{o}", f"p0 == {p} and c0 == {c} and o1 == {o}") for p in (0, 1) for c in range(8) for o in range(5) if not (p == 1 and c >= NB)]}},
